@@ -213,7 +213,17 @@ class StickyAssignmentExecutor:
     def _initialize(self, cluster: ClusterMetadata) -> None:
         self._init_current_assignments(self.members)
 
+        # only topics that some member subscribes to take part in the assignment (as in
+        # the Java assignor): a topic nobody subscribes to must not make identical
+        # subscriptions look different
+        subscribed_topics = {
+            topic
+            for member_metadata in self.members.values()
+            for topic in member_metadata.subscription
+        }
         for topic in cluster.topics():
+            if topic not in subscribed_topics:
+                continue
             partitions = cluster.partitions_for_topic(topic)
             if partitions is None:
                 log.warning("No partition metadata for topic %s", topic)
